@@ -602,6 +602,7 @@ package proto
 //@   requires buf != nil
 //@   modifies buf.Buf, all(input)
 //@   ensures appendsOnly(buf) {append-only}
+//@   ensures [internal] err == nil ==> calls("(InputColumn).EncodeStart") == len(input) [C01,C02] {every-column-gets-its-header-on-success}
 //@ callsite StateEncoder.EncodeState
 //@   assert col.Data.nrows != 0 [C01,C02] {state-prefix-only-for-a-column-with-rows}
 //@ callsite ColInput.EncodeColumn
@@ -613,6 +614,7 @@ package proto
 //@   invariant -1 <= rangeindex && rangeindex < len(input)
 //@   invariant len(buf.Buf) >= old(len(buf.Buf)) && forall k in 0..old(len(buf.Buf)) :: buf.Buf[k] == old(buf.Buf[k])
 //@   invariant rangeindex >= 0 ==> input[rangeindex].Data.nrows == b.Rows {each-encoded-column-has-the-block-row-count}
+//@   invariant calls("(InputColumn).EncodeStart") == rangeindex + 1 [C01,C02]
 
 //@ -- blockHeaderAt: the header Block.EncodeAware writes (optional BlockInfo from revision 51903,
 //@ -- columns, rows) lies at position p of array a
@@ -632,6 +634,7 @@ package proto
 //@   ensures blockHeaderAt(b, version, arrayof(w.buf.Buf), offset(w.buf.Buf) + old(len(w.buf.Buf))) && old(len(w.buf.Buf)) + ite(version >= 51903, 8, 0) + uvsize(u64(b.Columns)) + uvsize(u64(b.Rows)) <= len(w.buf.Buf) [C02,C14] {block-header-staged-first-as-EncodeAware-writes-it}
 //@ -- the same per-column order as EncodeRawBlock: row-count check, header, (Prepare), nothing more
 //@ -- for an empty column, then state, then data
+//@   ensures [internal] err == nil ==> calls("(*Writer).ChainBuffer#2") == len(input) [C02,C09,C14] {every-column-gets-its-header-on-success}
 //@ callsite (*Writer).ChainBuffer#2
 //@   assert col.Data.nrows == b.Rows [C02,C09,C14] {header-only-after-the-row-count-check}
 //@ callsite (*Writer).ChainBuffer#3
@@ -642,6 +645,7 @@ package proto
 //@   modifies w.bufOffset, w.vec, w.buf.Buf, all(input)
 //@   invariant -1 <= rangeindex && rangeindex < len(input) && wRI(w)
 //@   invariant rangeindex >= 0 ==> input[rangeindex].Data.nrows == b.Rows {each-written-column-has-the-block-row-count}
+//@   invariant calls("(*Writer).ChainBuffer#2") == rangeindex + 1 [C02,C09,C14]
 //@   invariant blockHeaderAt(b, version, arrayof(w.buf.Buf), offset(w.buf.Buf) + old(len(w.buf.Buf))) && old(len(w.buf.Buf)) + ite(version >= 51903, 8, 0) + uvsize(u64(b.Columns)) + uvsize(u64(b.Rows)) <= len(w.buf.Buf)
 
 // ---------------------------------------------------------------------------
@@ -702,6 +706,15 @@ package proto
 //@   ensures (*c) == rows [C06] {rows}
 //@   ensures err == nil ==> r.failed == old(r.failed)
 //@   ensures old(r.pos) <= r.pos && r.pos <= r.end
+
+//@ -- Nothing: one zero byte per row, whatever the buffer's spare capacity held before (the server
+//@ -- ignores the bytes, but the encoding must be a function of the column alone: C01/C14/C16)
+//@ contract (c ColNothing) EncodeColumn(b) props(C01,C14,C16)
+//@   requires b != nil && 0 <= c && c <= maxRowsInBLock
+//@   modifies b.Buf
+//@   alloc 100000000
+//@   ensures appendOnly(b, c) {appends-exactly-one-byte-per-row}
+//@   ensures forall j in 0..c :: b.Buf[old(len(b.Buf)) + j] == 0 {placeholder-bytes-are-zero}
 
 //@ -- Interval columns are Int64 columns with a scale: the wire image is that of the values
 //@ contract (c *ColInterval) DecodeColumn(r, rows) (err) props(C01,C06,C07,C08,C16)
